@@ -183,7 +183,7 @@ func (c Cfg) peerConfig(devs []string, keyless bool) peer.Config {
 }
 
 // Deadline bounds every handshake (context of the real endpoint, reads of the peer).
-var Deadline = 2 * time.Second
+var Deadline = 4 * time.Second
 
 var connSerial int64
 
@@ -206,7 +206,7 @@ type Obs struct {
 	TimedOut    bool   `json:"timedOut,omitempty"`
 	PeerErr     string `json:"peerErr,omitempty"`
 	PeerSteps   string `json:"peerSteps,omitempty"`
-	Sess        Sess   `json:"sess"`  // resumed mode: the session as established on the wire
+	Sess        Sess   `json:"sess"` // resumed mode: the session as established on the wire
 	Skip        string `json:"skip,omitempty"`
 	// Exercised: the switches the peer actually got to use (a select-phase switch is
 	// never reached when the server side waives authentication, ...)
